@@ -93,9 +93,6 @@ struct C18 : Harness {
         {
             Exec shared(api, eo);
             Transcript ts = shared.run(setup);
-            // sequential reference
-            std::vector<Transcript> seq;
-            for (auto &kv : per) { ThreadJob j{&api, kv.second, &shared, {}, nullptr}; thread_main(&j); seq.push_back(j.out); }
             int before = g_tsan_reports.load();
             // concurrent run
             size_t n = per.size();
@@ -107,6 +104,10 @@ struct C18 : Harness {
             for (size_t i = 0; i < n; ++i) pthread_join(th[i], nullptr);
             pthread_barrier_destroy(&bar);
             int reports = g_tsan_reports.load() - before;
+            // sequential reference, run *after* the concurrent phase so that nothing the library might cache
+            // has been warmed up by a single-threaded run first
+            std::vector<Transcript> seq;
+            for (auto &kv : per) { ThreadJob j{&api, kv.second, &shared, {}, nullptr}; thread_main(&j); seq.push_back(j.out); }
             if (reports > 0) res = "ThreadSanitizer reported " + std::to_string(reports) + " data race(s) in this scenario";
             for (size_t i = 0; i < n && res.empty(); ++i) {
                 CmpOpts co; co.img = true; co.pub = true;
